@@ -38,7 +38,9 @@ class BasePath(safe_str.safe_string):
         elif root == Root.absolute:
             raise ValueError("'{}' is not absolute".format(path))
         elif isinstance(root, BasePath):
-            normpath, isdir = self.__join(root.suffix, path)
+            # Join below the root's drive (or UNC share), not through it.
+            drive, rootpath = ntpath.splitdrive(root.suffix)
+            normpath, isdir = self.__join(rootpath, path)
             if destdir is None:
                 destdir = root.destdir
             root = root.root
@@ -137,7 +139,9 @@ class BasePath(safe_str.safe_string):
     def append(self, path):
         drive, path, isdir = self.__normalize(path, expand_user=True)
         if not posixpath.isabs(path):
-            path, _ = self.__join(self.suffix, path or '.')
+            # Join below our drive (or UNC share), not through it.
+            drive, base = ntpath.splitdrive(self.suffix)
+            path, _ = self.__join(base, path or '.')
         return type(self)(drive + path, self.root, self.destdir, isdir)
 
     def ext(self):
